@@ -96,7 +96,34 @@ def exh_opts():
     return opts
 
 
+def lattice_graph(kx, ky):
+    """HARD instance for a branch-and-bound search that is well within MAX_SUB_NET_SIZE: the kx*ky
+    nodes of a square lattice are sources, the (kx-1)*(ky-1) cell centres are destinations (all at
+    the same distance 7/8, massive ties), plus one source Z whose only candidate X = centre (0,0)
+    is 9/8 away with R = 10/8: leaving Z unlinked is cheaper by (100 + 49) - (81 + 100) = -32/64,
+    but the search tries Z -> X first."""
+    cen = [(i, j) for i in range(kx - 1) for j in range(ky - 1)]
+    cid = {c: k for k, c in enumerate(cen)}
+    srcs = [[[cid[(0, 0)], 9]]]
+    for i in range(kx):
+        for j in range(ky):
+            srcs.append([[cid[c], 7] for c in ((i - 1, j - 1), (i - 1, j), (i, j - 1), (i, j))
+                         if c in cid])
+    return srcs
+
+
+def gen_heavy_cases(ctx):
+    """long searches (10^5 .. 3*10^7 loop iterations) that the random stream never reaches and that
+    `MAX_ITERS` would skip: a search that gives up after N steps returns its best-so-far"""
+    yield dict(stream="iter", srcs=lattice_graph(4, 4), R=10, family="heavy",
+               only=["recursive", "nonrecursive", "numba"])
+    yield dict(stream="iter", srcs=lattice_graph(4, 5), R=10, family="heavy",
+               only=["recursive", "nonrecursive"] if ctx.thorough else ["recursive"])
+
+
 def gen_iter_cases(ctx):
+    for inp in gen_heavy_cases(ctx):
+        yield inp
     # exhaustive family: <=2 sources always, 3 sources in the thorough tier
     opts = exh_opts()
     for ns in ((1, 2, 3) if ctx.thorough else (1, 2)):
@@ -322,24 +349,30 @@ MAX_ITERS = {"numba": 20000, "nonrecursive": 50000, "recursive": 50000}   # see 
 
 
 def _guarded(fn, seconds=120):
-    """run fn() with an alarm (a mutated loop may not terminate)"""
+    """run fn() with an alarm (a mutated loop may not terminate); nests inside the per-case alarm of
+    common._run_one: that timer is suspended and re-armed with what is left of it"""
     import signal
+    import time
 
     def _h(signum, frame):
         raise _Timeout()
     try:
+        outer_left = signal.getitimer(signal.ITIMER_REAL)[0]
         old = signal.signal(signal.SIGALRM, _h)
         signal.setitimer(signal.ITIMER_REAL, seconds)
     except (ValueError, AttributeError):
         return fn()
+    t0 = time.time()
     try:
         return fn()
     finally:
         signal.setitimer(signal.ITIMER_REAL, 0)
         signal.signal(signal.SIGALRM, old)
+        if outer_left > 0:
+            signal.setitimer(signal.ITIMER_REAL, max(outer_left - (time.time() - t0), 0.01))
 
 
-def run_iter_impls(inp, skip=()):
+def run_iter_impls(inp, skip=(), seconds=120):
     """-> dict name -> ('ok', order, chosen, iters|None) | ('oversize',) | ('exception', repr)
     order = input indices of the sources in the order the function uses/returns them,
     chosen = destination index or None per entry of `order`."""
@@ -361,12 +394,12 @@ def run_iter_impls(inp, skip=()):
 
     def call(name, fn):
         try:
-            out[name] = _guarded(fn)
+            out[name] = _guarded(fn, seconds)
         except SubnetOversizeException:
             out[name] = ("oversize",)
         except _Timeout:
-            out[name] = ("exception", "no termination within 120 s although the model needs "
-                                      "< %d loop iterations" % MAX_ITERS[name])
+            out[name] = ("exception", "no termination within the time limit although the model needs "
+                                      "a bounded number of loop iterations")
         except Exception as e:                                  # judged by the caller
             out[name] = ("exception", "%s: %s" % (type(e).__name__, e))
 
@@ -454,18 +487,22 @@ def run_iter_case(ctx, inp):
     res.stat("iter_cases")
     if inp.get("family"):
         res.stat("iter_family_" + inp["family"])
-    models = {"recursive": ctx.ask("RECUR " + line), "nonrecursive": ctx.ask("NONREC " + line),
-              "numba": ctx.ask("NUMBA " + line)}
+    only = inp.get("only")
+    ops = {"recursive": "RECUR ", "nonrecursive": "NONREC ", "numba": "NUMBA "}
+    models = {k: (ctx.ask(op + line) if only is None or k in only else "skipped")
+              for k, op in ops.items()}
     # the interpreted loops cost 5-50 us per iteration: inputs on which the (native) model needs
     # more than MAX_ITERS iterations are not run through that loop (counted, never judged)
-    skip = set()
+    skip = set(ops) - set(only) if only is not None else set()
     for name, mname in (("numba", "numba"), ("nonrecursive", "nonrecursive"),
                         ("recursive", "nonrecursive")):
+        if only is not None:
+            break                       # heavy family: run exactly the loops asked for
         it = common.kv(models[mname]).get("iters")
         if it is not None and int(it) > MAX_ITERS[name]:
             skip.add(name)
             res.stat("iter_skipped_long_" + name)
-    impl = run_iter_impls(inp, skip)
+    impl = run_iter_impls(inp, skip, seconds=900 if only is not None else 120)
     ocost = None
     first_assign = {}
     for name in ("recursive", "nonrecursive", "numba"):
